@@ -129,8 +129,28 @@ def run_sim(script, workdir, name, binary="vipsim", timeout=600, args=None):
     except subprocess.TimeoutExpired:
         raise Machinery("driver timed out: %s" % " ".join(cmd))
     status = open(st).read().strip() if os.path.exists(st) else ""
-    out = p.stdout.decode("utf-8", "replace")
+    out = defake(p.stdout).decode("utf-8", "replace")
     return tp, status, p.returncode, out
+
+
+def defake(b):
+    """The fake-clock runtime frames everything written to stdout/stderr: "\\0\\0PB", 8 bytes of time, 4 bytes of
+    length, then the data.  Returns the data only."""
+    if b"\x00\x00PB" not in b:
+        return b
+    out, i = bytearray(), 0
+    while True:
+        j = b.find(b"\x00\x00PB", i)
+        if j < 0:
+            out += b[i:]
+            break
+        out += b[i:j]
+        if j + 16 > len(b):
+            break
+        n = int.from_bytes(b[j + 12:j + 16], "big")
+        out += b[j + 16:j + 16 + n]
+        i = j + 16 + n
+    return bytes(out)
 
 
 # ---------------------------------------------------------------------------
